@@ -109,6 +109,8 @@ class Shape(str, Enum):
 
 class CodeGenerator(abc.ABC):
     variable_prefix = ""
+    # How the extra argument holding the missing variables is declared
+    missing_variables_argument = "missing_variables"
 
     def __init__(
         self,
@@ -312,7 +314,7 @@ class CodeGenerator(abc.ABC):
 
         arguments = rhs.arguments
         if self._missing_variables:
-            arguments += ["missing_variables"]
+            arguments += [self.missing_variables_argument]
 
         values_lst = []
         index = 0
@@ -389,7 +391,7 @@ class CodeGenerator(abc.ABC):
 
         arguments = rhs.arguments
         if self._missing_variables:
-            arguments += ["missing_variables"]
+            arguments += [self.missing_variables_argument]
 
         values_lst = []
         index = 0
@@ -438,7 +440,7 @@ class CodeGenerator(abc.ABC):
 
         arguments = rhs.arguments
         if self._missing_variables:
-            arguments += ["missing_variables"]
+            arguments += [self.missing_variables_argument]
 
         values_lst = []
         N = len(values)
@@ -511,7 +513,7 @@ class CodeGenerator(abc.ABC):
 
         arguments = rhs.arguments
         if self._missing_variables:
-            arguments += ["missing_variables"]
+            arguments += [self.missing_variables_argument]
 
         dt = sympy.Symbol("dt")
         eqs = f(
